@@ -120,7 +120,7 @@ func (r *Reader) getFileContent(name string) ([]byte, error) {
 				return nil, err
 			}
 			defer rc.Close()
-			return io.ReadAll(rc)
+			return readPart(rc)
 		}
 	}
 	return nil, fmt.Errorf("file not found: %s", name)
@@ -933,4 +933,20 @@ func (r *Reader) Document() (*model.Document, error) {
 	}
 
 	return doc, nil
+}
+
+// maxPartSize bounds the uncompressed size of one archive member that is read into memory: a
+// member of a few hundred kilobytes can inflate to gigabytes.
+var maxPartSize int64 = 256 << 20
+
+// readPart reads one archive member, refusing members larger than maxPartSize.
+func readPart(r io.Reader) ([]byte, error) {
+	data, err := io.ReadAll(io.LimitReader(r, maxPartSize+1))
+	if err != nil {
+		return nil, err
+	}
+	if int64(len(data)) > maxPartSize {
+		return nil, fmt.Errorf("archive member larger than %d bytes", maxPartSize)
+	}
+	return data, nil
 }
